@@ -456,14 +456,16 @@ class FieldTypeConstraint(Constraint):
              self.report(path, value, "an Array", problems)
         elif self.type == "string" and not isinstance(value, str):
              self.report(path, value, "a String", problems)
-        elif self.type == "integer" and not isinstance(value, int):
+        elif self.type == "integer" and (isinstance(value, bool) or not isinstance(value, int)):
+             # (A JSON boolean is not a number, though a Python bool is an int.)
              self.report(path, value, "an Integer", problems)
         elif self.type == "float" and not isinstance(value, float):
              self.report(path, value, "a Float", problems)
         elif self.type == "boolean" and value != True and value != False:
              self.report(path, value, "a Boolean", problems)
-        elif self.type == "numeric" and not (isinstance(value, int) or 
-                                             isinstance(value, float)):
+        elif self.type == "numeric" and (isinstance(value, bool) or not
+                                         (isinstance(value, int) or
+                                          isinstance(value, float))):
              self.report(path, value, "a Numeric", problems)
         elif self.type == "JSONPath" and not JSONPathChecker().is_path(value):
              self.report(path, value, "a JSONPath", problems)
